@@ -54,6 +54,14 @@ LeftOrbiter(S, d) == MapThenSumSet(LAMBDA a : Delta(S, a, d), Acct \ {"orb", Esc
 SumOverAccts(S, d) == MapThenSumSet(LAMBDA a : Delta(S, a, d), Acct)
 
 -----------------------------------------------------------------------------
+(* A KNOWN, RECORDED deviation of the design from C11 / C02 (KNOWN_FINDINGS.json, DESIGN.md section 10):   *)
+(* a Hyperlane forwarding whose custom hook is a paying interchain gas paymaster draws the hook fee from  *)
+(* whatever the orbiter account holds in the paymaster's denom AFTER the collateral is locked - i.e. from   *)
+(* coins that were already lying there in another denomination.  The specification models what the code  *)
+(* does; the model-checking configs therefore assert C02 / C11 "except for this named deviation", while   *)
+(* the predicates evaluated on observed steps stay strict (the check prints KNOWN-FINDING for them).      *)
+KnownDeviationIGP(S) == IsRecv(S) /\ S.in.mk = "PAYLOAD" /\ S.in.fw.hook = "H_IGP"
+
 (* C01 Received funds never stay on the orbiter account *)
 Prop_C01(S) == IsRecv(S) =>
   /\ ~S.panic                                             \* an acknowledgement exists
@@ -155,7 +163,7 @@ PostActionCoin(S) == IF FeeActs(S) # {} /\ ~HasSwap(S)
 \* fields that typed events cannot show are masked when the request was reconstructed from events
 Mask(r, full) == IF r.route # "HYP" THEN r
                  ELSE IF full THEN [r EXCEPT !.denom = "?"]      \* the warp message names a token, not a denom
-                 ELSE [r EXCEPT !.hook = "?", !.gas = -1, !.maxfee = -1, !.meta = "?"]
+                 ELSE [r EXCEPT !.hook = "?", !.gas = -1, !.maxfee = -1, !.mfd = "?", !.meta = "?"]
 Unrouted(in) == PidOf(in.fw.pid) \in {"IBC", "BAD"}
                   \/ (\E i \in DOMAIN in.acts : ActOf(in.acts[i].id) = "BAD")
                   \/ (~SwapRegistered /\ \E j \in DOMAIN in.acts : ActOf(in.acts[j].id) = "SWAP")
@@ -349,4 +357,7 @@ Prop_C17(S) == S.in.t = "reimport" =>
   /\ S.x.exportOk /\ S.x.validateOk /\ S.x.initOk /\ S.x.sameExport /\ S.x.fullOk
   /\ OrbGroups(S.post) = OrbGroups(S.pre)
 
+\* the forms asserted by the model-checking configs (see KnownDeviationIGP)
+MC_C02(S) == KnownDeviationIGP(S) \/ Prop_C02(S)
+MC_C11(S) == KnownDeviationIGP(S) \/ Prop_C11(S)
 =============================================================================
